@@ -880,3 +880,49 @@ def random_unpivot_units(rnd, n):
             t = {'k': 'clause', 'op': 'filter', 'ds': t, 'items': [{'k': 'bin', 'op': rnd.choice(['>', '<=']), 'l': var('Me_9'), 'r': const(I(0))}]}
         units.append({'id': 'up%d' % i, 'env': env, 'term': t, 'cc': True})
     return units
+
+
+def random_vd_units(rnd, n):
+    """in / not_in against VALUE DOMAINS of the environment (run(value_domains=...)) at dataset, membership and
+    component level; the same statements with the set written out are the units of random_units."""
+    units = []
+    for i in range(n):
+        nty = rnd.choice(['Integer', 'Number'])
+        ids = [('Id_1', 'Integer'), ('Id_2', 'String')][:rnd.choice([1, 2, 2])]
+        others = [('Me_1', 'M', nty), ('Me_2', 'M', 'String')] + ([('At_1', 'A', 'String')] if rnd.random() < 0.2 else [])
+        ds = gen.shuffled(rnd, gen.dataset(rnd, ids, others, rnd.choice([0, 1, 3, 6, 12]), keyspace=4, null_p=0.25))
+        env = {'DS_1': ds}
+
+        def pool(col, extra):
+            seen = []
+            for r in ds['rows']:
+                v = r.get(col)
+                if v is not None and v[0] != 0 and v not in seen:
+                    seen.append(v)
+            k = rnd.choice([0, 1, 2, 3])
+            return rnd.sample(seen, min(k, len(seen))) + [extra]
+        env['VD_1'] = {'set': pool('Me_1', I(77) if nty == 'Integer' else N(15, 2)), 't': nty}
+        strcol = rnd.choice(['Me_2'] + (['Id_2'] if len(ids) > 1 else []))
+        env['VD_2'] = {'set': pool(strcol, S('zz')), 't': 'String'}
+        env['VD_3'] = {'set': pool('Id_1', I(-3)), 't': 'Integer'}
+
+        def m(comp, dom, neg=None):
+            return {'k': 'in', 'neg': rnd.random() < 0.4 if neg is None else neg, 'x': var(comp), 'set': [], 'dom': dom}
+        kind = rnd.choice(['ds', 'memb', 'calc', 'filter', 'both'])
+        if kind == 'ds':
+            t = {'k': 'in', 'neg': rnd.random() < 0.4, 'x': {'k': 'clause', 'op': 'keep', 'ds': var('DS_1'), 'items': ['Me_1']}, 'set': [], 'dom': 'VD_1'}
+        elif kind == 'memb':
+            c, d = rnd.choice([('Me_1', 'VD_1'), ('Me_2', 'VD_2')])
+            t = {'k': 'in', 'neg': rnd.random() < 0.4, 'x': {'k': 'memb', 'ds': var('DS_1'), 'comp': c}, 'set': [], 'dom': d}
+        elif kind == 'calc':
+            items = [{'name': 'X1', 'role': 'M', 'expr': m('Me_1', 'VD_1')}, {'name': 'X2', 'role': rnd.choice(['M', 'A']), 'expr': m(strcol, 'VD_2')},
+                     {'name': 'X3', 'role': 'M', 'expr': m('Id_1', 'VD_3')}]
+            t = {'k': 'clause', 'op': 'calc', 'ds': var('DS_1'), 'items': rnd.sample(items, rnd.choice([1, 2, 3]))}
+        elif kind == 'filter':
+            t = {'k': 'clause', 'op': 'filter', 'ds': var('DS_1'), 'items': [rnd.choice([m('Me_1', 'VD_1'), m(strcol, 'VD_2'), m('Id_1', 'VD_3')])]}
+        else:
+            e = {'k': 'bin', 'op': rnd.choice(['and', 'or', 'xor']), 'l': m('Me_1', 'VD_1'), 'r': {'k': 'un', 'op': 'not', 'x': m(strcol, 'VD_2')}}
+            t = {'k': 'clause', 'op': rnd.choice(['filter', 'calc']), 'ds': var('DS_1'), 'items': None}
+            t['items'] = [e] if t['op'] == 'filter' else [{'name': 'X1', 'role': 'M', 'expr': e}]
+        units.append({'id': 'vd%d' % i, 'env': env, 'term': t, 'cc': True, 'nopack': True})
+    return units
